@@ -109,7 +109,9 @@ def compare(ctx, key, got, want, what, case, rel=1e-9):
         return
     if want != want:
         ctx.count("undefined_checks")
-        if not (got != got or math.isinf(got)):
+        # (a denominator that is exactly zero in the reference may be zero only up to rounding in floating point, e.g. the sum
+        #  of 1.91, 1.35, ..., -3.69: a quotient beyond 1e10 is that noise, not a score)
+        if not (got != got or math.isinf(got) or abs(got) > 1e10):
             ctx.violation("undefined-gives-number|" + key, "%s = %r although the definition is undefined" % (what, got), case)
         return
     if abs(want) > 1e10:
